@@ -1153,9 +1153,15 @@ class Generator:
         self.out.emit("// SLICE (rule R10) of %s :: %s, lines %d-%d; the wrapper signature is synthetic, the statements are verbatim\n"
                       % (file, path[-1], src.line_of(pos_from), src.line_of(pos_to - 1)), "template", rel, lineno)
         self.out.emit(decl.split("=>")[0].rstrip() + "\n" + sig + "\n{\n", "template", rel, lineno)
-        if self.probe:
+        # the vacuity probe goes behind the body-start text (which may hold headers such as `hide(..)`
+        # that must come first) - unless that text ends in an open statement (`let r0 =`) that the
+        # slice itself completes
+        probe_first = pre.rstrip().endswith("=")
+        if self.probe and probe_first:
             self.out.emit("proof { assert(false); } // VACUITY-PROBE\n", "inserted")
         self.out.emit(pre + "\n", "template", rel, lineno)
+        if self.probe and not probe_first:
+            self.out.emit("proof { assert(false); } // VACUITY-PROBE\n", "inserted")
         self.emit_chunks(ed.render(), src)
         tail = decl.split("=>")[1].strip() if "=>" in decl else ""
         self.out.emit(post + "\n" + tail + "\n}\n\n", "template", rel, lineno)
